@@ -38,6 +38,9 @@ ASSUMPTIONS = [
     'a dangling symbolic link counts as a path that exists (the quantifier '
     'names it as a destination state; "in every format"): without '
     'overwrite=True it must be refused with OSError, link untouched',
+    'a list that serialises to the empty string (no region, or only skipped '
+    'members, as DS9 / CRTF text) is read back with the format given or '
+    'inferred from the extension only: an empty text has no content signature',
     'when a destination exists AND a fault is injected any exception type is '
     'accepted (which check fires first is not specified)',
 ]
@@ -135,6 +138,9 @@ class Matrix(Relation):
                 # a format name nobody registered / a path whose extension
                 # identifies no format and no format given
                 faults += [('badformat', None), ('noext', None)]
+                # lists that serialise to NOTHING: no region at all, or only
+                # members the format skips with a warning - still a write
+                faults += [('nothing', 'empty'), ('nothing', 'skipped')]
                 for dest in DEST:
                     for overwrite in (False, True):
                         for fault in faults:
@@ -185,6 +191,8 @@ class Matrix(Relation):
         elif kind == 'inexpressible':
             regs.insert(arg + 1, R.RectangleAnnulusPixelRegion(
                 R.PixCoord(3, 4), 2, 5, 1, 4))
+        elif kind == 'nothing':
+            regs = [] if arg == 'empty' else [regs[0] & regs[-1]]
         elif kind == 'badformat':
             explicit = True
         elif kind == 'noext':
@@ -316,7 +324,12 @@ class Matrix(Relation):
                 ctx.check(got_err is not None,
                           f'read ({name}) | returns regions instead of '
                           'raising', f'{got!r}'[:200], spec=cell)
+            nothing = isinstance(data, str) and not data.strip()
             for name, p, a in variants:
+                if nothing and 'content signature' in name:
+                    # an empty text has no signature to be recognised by
+                    ctx.count('empty_text_has_no_signature')
+                    continue
                 got, got_err = attempt(p, **a)
                 if want_err is not None:
                     ctx.check(got_err is want_err,
